@@ -1,6 +1,7 @@
 SPECIFICATION Spec
 CONSTANTS MaxDepth = 3
  FixSkipLine = TRUE
+ FixLineInGroup = TRUE
  Emit = FALSE
  Look = FALSE
 VIEW View
